@@ -568,7 +568,7 @@ class Prop:
             return
         owner_m, name = slots[op["pick"] % len(slots)]
         owner = world.node(owner_m.uid)
-        if owner is None or owner_m.cls != "Node":
+        if owner is None or not owner_m.full:
             return
         kind = op["kind"]
         saved_model = owner_m.get(name)
@@ -672,7 +672,7 @@ class Prop:
                 nxt = []
                 for o in objs:
                     if isinstance(o, G.MNode) and step[0] == "t" and step[1] in ("child", "lazy") \
-                            and o.cls == "Node":
+                            and o.full:
                         slots.append((o, step[1]))
                     if isinstance(o, G.MNode) and step[0] in ("t", "opt") and step[1] in o.traits():
                         v = o.get(step[1])
